@@ -232,7 +232,8 @@ def evaluate__map_merge(self: XPathFunction, context: ta.ContextType = None) -> 
 
     items: dict[Any, Any] = {}
     for map_ in self[0].select(context):
-        assert isinstance(map_, XPathMap)
+        if not isinstance(map_, XPathMap):
+            raise self.error('XPTY0004', 'the first argument must be a sequence of maps')
         for k1, v in map_.items(context):
             # Speed up for certain key types or float values
             if isinstance(k1, SAFE_KEY_ATOMIC_TYPES) or \
